@@ -207,6 +207,11 @@ class Target:
         with open(cfile, 'w') as fh:
             fh.write('\n'.join(out) + '\n')
         self.cfile = cfile
+        # a callee under contract that the current source no longer calls has no symbol in the goto binary and DFCC
+        # would abort on its --replace-call-with-contract: replace only callees that are called (recorded in the evidence)
+        self.replace_used = [g for g in self.replace if any(re.search(r'\b' + re.escape(g) + r'\s*\(', t) for t in texts + [harness])
+                             or any(g == f.cname for f in self.fns)]
+        info['contracts_not_called'] = [g for g in self.replace if g not in self.replace_used]
         self.info = info
         return cfile
 
@@ -243,7 +248,7 @@ class Target:
         cmd = ['goto-instrument', '--dfcc', 'main']
         if self.enforce:
             cmd += ['--enforce-contract', self.enforce]
-        for g in self.replace:
+        for g in self.replace_used:
             if any(f.cname == g for f in self.fns) and not any(f.cname == g for f in self.fns_present):
                 continue     # optional callee absent from the source: nothing to replace
             cmd += ['--replace-call-with-contract', g]
@@ -256,7 +261,7 @@ class Target:
         cmd = ['cbmc', gb2] + self.checks + ['--json-ui', '--trace', '--no-standard-checks'] + self.cbmc_flags
         res['checker_cmd'] = ' '.join(['goto-cc … |', 'goto-instrument --dfcc main'] +
                                       ([f'--enforce-contract {self.enforce}'] if self.enforce else []) +
-                                      [f'--replace-call-with-contract {g}' for g in self.replace] +
+                                      [f'--replace-call-with-contract {g}' for g in self.replace_used] +
                                       ['--apply-loop-contracts |'] + ['cbmc'] + self.checks + self.cbmc_flags)
         rc, so, se, dt = run(cmd, self.timeout)
         res['seconds']['cbmc'] = dt
